@@ -45,6 +45,7 @@ class Ctx:
         self.analysed: Dict[str, Any] = {}
         self.assumptions: List[str] = []
         self.coverage_extra: Dict[str, Any] = {}
+        self._seen = set()
         self.t0 = time.time()
 
     @property
@@ -55,8 +56,11 @@ class Ctx:
 
     def ob(self, rule: str, construct: str, ok: bool, message: str, where: str = '',
            nontrivial: bool = True, **details) -> bool:
-        self.obligations.append(Obligation(rule, construct, bool(ok), message, where,
-                                           nontrivial, details))
+        key = (rule, construct, bool(ok), message)
+        if key not in self._seen:
+            self._seen.add(key)
+            self.obligations.append(Obligation(rule, construct, bool(ok), message, where,
+                                               nontrivial, details))
         return bool(ok)
 
     def note(self, msg: str):
